@@ -193,12 +193,13 @@ func genC04(tier string) []Scenario {
 		out = append(out, shapeScenario(fmt.Sprintf("inject shape#%d=%s", i, d), d, c04Kinds, mk, i%2 == 0))
 	}
 	// a batch node as a flow step: prep / post failures are run-ending and wrapped transparently
-	for _, where := range []string{"prep", "post", "post+item-failure", "none"} {
+	for _, where := range []string{"prep", "post", "post+item-failure", "none", "post-of-empty-batch", "none-empty-batch"} {
 		for ek, e := range injectKinds {
 			where, e := where, e
-			if where == "none" && ek > 0 {
+			if strings.HasPrefix(where, "none") && ek > 0 {
 				continue
 			}
+			empty := strings.HasSuffix(where, "empty-batch")
 			for _, c := range []int{0} {
 				c := c
 				var problems int
@@ -219,6 +220,9 @@ func genC04(tier string) []Scenario {
 							if where == "prep" {
 								return nil, e
 							}
+							if empty {
+								return []flyt.Result{}, nil
+							}
 							return []flyt.Result{flyt.NewResult(1), flyt.NewResult(2)}, nil
 						}).
 						WithExecFunc(func(_ ctxT, it flyt.Result) (flyt.Result, error) {
@@ -230,7 +234,7 @@ func genC04(tier string) []Scenario {
 						}).
 						WithPostFunc(func(ctxT, *flyt.SharedStore, []flyt.Result, []flyt.Result) (flyt.Action, error) {
 							trace = append(trace, "B.post")
-							if where == "post" || where == "post+item-failure" {
+							if where == "post" || where == "post+item-failure" || where == "post-of-empty-batch" {
 								return "", e
 							}
 							return flyt.DefaultAction, nil
@@ -245,11 +249,15 @@ func genC04(tier string) []Scenario {
 						want = want[:2]
 					case "post", "post+item-failure":
 						want = want[:5]
+					case "post-of-empty-batch":
+						want = []string{"A", "B.prep", "B.post"}
+					case "none-empty-batch":
+						want = []string{"A", "B.prep", "B.post", "Z"}
 					}
 					if fmt.Sprint(trace) != fmt.Sprint(want) {
 						core.Problem("batch step: callbacks %v, want %v", trace, want)
 					}
-					if where == "none" {
+					if strings.HasPrefix(where, "none") {
 						if err != nil {
 							core.Problem("batch step: unexpected error %v", err)
 						}
